@@ -1731,6 +1731,12 @@ def family_pauli():
     shapes.append((['Z', 'X'], [(0, 1)], [], []))                                       # a closed pair
     shapes.append((['Z', 'X', 'Z', 'X', 'Z'], [(0, 1), (1, 2), (2, 3), (3, 4), (0, 3), (1, 4)], [], [2]))
     shapes.append((['Z', 'X', 'Z', 'X', 'Z', 'X'], [(0, 1), (1, 2), (2, 3), (3, 4), (4, 5), (5, 0), (0, 3)], [], []))
+    # bare wires (an input joined straight to an output: the entry None) next to same-coloured pairs, which make_bipartite has to separate whatever the
+    # position of the wire in the edge order
+    shapes.append((['Z', 'Z', 'X', 'X'], [(0, 1), (1, 2), (2, 3)], [None, 0], [None, 3]))
+    shapes.append((['X', 'X'], [(0, 1)], [None, 0], [None, 1]))
+    shapes.append((['Z', 'Z', 'Z'], [(0, 1), (1, 2), (0, 2)], [None], [None]))
+    shapes.append((['Z', 'X', 'X', 'Z'], [(0, 1), (1, 2), (2, 3), (3, 0)], [0, None], [2, None]))
     for cols, es, ins, outs in shapes:
         for order in ('boundaries-first', 'boundaries-last', 'interleaved'):
             for ph in (0, 1):
@@ -1776,9 +1782,16 @@ def build_pauli(facts, cols, es, ins, outs, order, ph):
     for a, b in es:
         be.call('add_edge_with_type', spid[a], spid[b], et('N'))
     for k, s_ in enumerate(ins):
-        be.call('add_edge_with_type', inb[k], spid[s_], et('N'))
+        if s_ is not None:
+            be.call('add_edge_with_type', inb[k], spid[s_], et('N'))
     for k, s_ in enumerate(outs):
-        be.call('add_edge_with_type', outb[k], spid[s_], et('N'))
+        if s_ is not None:
+            be.call('add_edge_with_type', outb[k], spid[s_], et('N'))
+    wi_, wo_ = [inb[k] for k, s_ in enumerate(ins) if s_ is None], [outb[k] for k, s_ in enumerate(outs) if s_ is None]
+    if len(wi_) != len(wo_):
+        raise minirust.NoEval('bare wires need an input and an output each')
+    for a, b in zip(wi_, wo_):
+        be.call('add_edge_with_type', a, b, et('N'))
     be.call('set_inputs', list(inb))
     be.call('set_outputs', list(outb))
     return be, spid, inb, outb
